@@ -502,7 +502,7 @@ PROPERTIES = {
                 + [e4_part("C08", dict(quick=100000, thorough=1000000), dict(quick=7, thorough=10), True, abort=True)] + [e5_part("C08", dict(quick=120, thorough=1500))] + [fuzz_part("vecconv", "C08", dict(quick=0, thorough=600000), 128)]),
     "C09": dict(level="fault_enumeration", parts=e4_parts("C09", dict(quick=150000, thorough=2000000), dict(quick=8, thorough=11)) + [e5_part("C09", dict(quick=100, thorough=1000))] + [fuzz_part("vecconv", "C09", dict(quick=0, thorough=600000), 128)]),
     "C10": dict(level="exploration", parts=e4_parts("C10", dict(quick=100000, thorough=800000), dict(quick=12, thorough=40)) + [fuzz_part("vecconv", "C10", dict(quick=0, thorough=600000), 128)]),
-    "C12": dict(level="exploration", parts=e1_parts("C12", dict(quick=400000, thorough=4000000)) + [fuzz_part("layout", "C12", dict(quick=0, thorough=250000), 256)]),
+    "C12": dict(level="exploration", parts=e1_parts("C12", dict(quick=400000, thorough=1500000)) + [fuzz_part("layout", "C12", dict(quick=0, thorough=250000), 256)]),
     "C11": dict(level="exploration", parts=[e5_part("C11", dict(quick=1500, thorough=10000)), e5_part("C11", dict(quick=500, thorough=3000), release=True)]),
     "C13": dict(level="exploration", parts=e1_parts("C13", dict(quick=60000, thorough=800000)) + [e5_part("C13", dict(quick=120, thorough=1500)), e5_part("C13", dict(quick=60, thorough=500), release=True)] + [fuzz_part("layout", "C13", dict(quick=0, thorough=20000), 256)]),
     "C14": dict(level="exploration", parts=[e5_part("C14", dict(quick=250, thorough=2000))]),
